@@ -42,6 +42,11 @@ def assembleMapping (pkgs outs roots : List (String × String)) (defPkg defOut :
       | none => if (lookupS id pkgs).isSome then "" else defOut)
     rootType := (lookupS id roots).getD "" }
 
+/-- the mappings main.go assembles: one per id named by any flag -/
+def assembleAll (pkgs outs roots : List (String × String)) (defPkg defOut : String) (ids : List String) : List SchemaMapping :=
+  ids.map (assembleMapping pkgs outs roots defPkg defOut)
+
+
 inductive RouteErr where
   | noPackage (id : String)
   | conflictSameFile (file pkg1 pkg2 : String)
